@@ -100,7 +100,18 @@ def writer_script(cfg, content_file="in.dat", out_file="out.zck", seg=None):
     if cfg.get("dict"):
         L.append("sopt 0 %d f:%s" % (COMP_DICT, cfg["dict"]))
     L.append("is_error 0")
+    if cfg.get("companion"):
+        # a second archive written side by side in the same thread: same kind of configuration, other content, fed between the calls
+        cc = cfg["companion"]
+        L += ["fopen 5 companion.zck w output2", "create 5", "init_write 5 5", "iopt 5 %d %d" % (COMP_TYPE, cc.get("comp", cfg.get("comp", 2)))]
+        if cc.get("cmax") is not None:
+            L.append("iopt 5 %d %d" % (CHUNK_MAX, cc["cmax"]))
+        if cc.get("cmin") is not None:
+            L.append("iopt 5 %d %d" % (CHUNK_MIN, cc["cmin"]))
+        L.append("companion 5 f:%s %d" % (cc["file"], cc["piece"]))
     L.append("writeseq 0 f:%s %s" % (content_file, " ".join(str(x) for x in (seg or [1 << 30]))))
+    if cfg.get("companion"):
+        L.append("companion_stat")
     for _ in range(cfg.get("extra_end", 0)):
         L.append("end_chunk 0")
     L.append("wstate 0")
